@@ -23,6 +23,6 @@ for c in "$@"; do
   echo "    rc=$rc wall=$(( $(date +%s)-s ))s"
   # keep a record next to the seeded change: which state of /verif, which check, verdict, first reported discrepancy
   what=$(grep -A2 -m1 "^VIOLATION" $vv/out-$c.log | sed -n 3p | cut -c1-220)
-  [ -d /verif/seeded/$id ] && echo "$(git -C /verif rev-parse --short HEAD)$(git -C /verif diff --quiet || echo +dirty) $c $tier rc=$rc $what" >> /verif/seeded/$id/tries.log
+  [ -d /verif/seeded/$id ] && echo "$(git -C /verif rev-parse --short HEAD)$(git -C /verif diff --quiet -- . ':!seeded' ':!DESIGN.md' || echo +dirty) $c $tier rc=$rc $what" >> /verif/seeded/$id/tries.log
 done
 git -C /repo worktree remove --force $wt; rm -rf $vv
